@@ -1,6 +1,7 @@
 from props import tu, run
 
 IOLIBS = ["-lpng", "-ljpeg", "-ltiffxx", "-ltiff", "-lz"]
+FSLIBS = ["-lboost_filesystem", "-lboost_system"]   # detail::filesystem::path is boost::filesystem::path in C++14 mode
 SRC = "harness/c13_io_read_agree.cpp"
 DEPS = ["harness/c12_io_common.hpp"]
 
@@ -8,7 +9,8 @@ DEPS = ["harness/c12_io_common.hpp"]
 PARTS = [(0, "bmp", 8, 900), (1, "pnm", 8, 900), (2, "targa", 8, 500), (3, "png8", 6, 700), (4, "jpeg", 4, 500),
          (5, "tiff_gray8_rgb8", 6, 1000), (6, "tiff_rgba8_gray16", 6, 1000), (7, "png16", 6, 500),
          (8, "tiff_rgb16_gray32f", 6, 1000), (9, "tiff_gray1_gray4", 6, 1000), (10, "png_bits", 6, 500)]
-PROBES = [(0, "make_scanline_reader.istream"), (1, "make_scanline_reader.FILEptr"), (2, "control.make_scanline_reader.filename")]
+PROBES = [(0, "make_scanline_reader.istream"), (1, "make_scanline_reader.FILEptr"), (2, "control.make_scanline_reader.filename"),
+          (3, "make_scanline_reader.filesystem-path"), (6, "control.read_image.wstring")]
 
 CFG = dict(
     level="exploration",
@@ -26,7 +28,12 @@ CFG = dict(
                 "scanline reader over an istream device with and without skipped rows) through eight kinds of input stream "
                 "(get area refilled 1/2/7/64/4096/seeded bytes at a time, std::ifstream on a scratch file, std::stringstream "
                 "filled by write; files from 60 bytes to 760 KB) must give what the same entry point gives through a one-piece "
-                "std::istringstream. Observation of "
+                "std::istringstream. Names: every (name type, argument kind, entry point) combination that compiles -- char const*, "
+                "std::string, std::wstring, filesystem::path, FILE*, std::istream&, TIFF* x {format tag, default settings, "
+                "sub-rectangle settings, sub-rectangle + format option} x {read_image, read_view, read_and_convert_image/view, "
+                "read_image_info, any_image, make_reader, make_scanline_reader} -- must give what the same call gives on a "
+                "one-piece istringstream, which in turn must have exactly the requested region. Converting reads of a "
+                "sub-rectangle (image and view, 5 destination types) must equal that rectangle of the converting full read. Observation of "
                 "bounded executions: other files, rectangles and destination types are not covered."),
     level_note=("the reference is GIL's own full read (agreement, not decode correctness, is the property); trusts the harness's "
                 "pixel comparison (self-tested at start-up) and g++ 12/ASan; system libpng/libjpeg/libtiff"),
@@ -49,9 +56,15 @@ CFG = dict(
                  "PNG gray+alpha (and gray+tRNS fixtures) need BOOST_GIL_IO_ENABLE_GRAY_ALPHA and are not claimed",
                  "TIFF has no FILE* device"],
     tus=[tu("c13_p%d" % k, SRC, "asan", extra=["-DC13_PART=%d" % k], libs=IOLIBS, deps=DEPS) for k, _, _, _ in PARTS]
-        + [tu("c13_probe%d" % k, "harness/c13_probe.cpp", "asan", extra=["-DC13_PROBE=%d" % k], probe=name) for k, name in PROBES],
-    runs=[run("c13_p%d" % k, shards=sh, min_cases={"quick": fl, "thorough": fl}, max_restarts=400) for k, _, sh, fl in PARTS],
-    require_obs=["path.subrect", "path.convert", "path.scanline", "path.readview", "path.anyimage", "path.devices", "path.info",
+        + [tu("c13_probe%d" % k, "harness/c13_probe.cpp", "asan", extra=["-DC13_PROBE=%d" % k], probe=name) for k, name in PROBES]
+        + [tu("c13_n%d" % k, "harness/c13_io_names.cpp", "asan", extra=["-DC13N_PART=%d" % k], libs=IOLIBS + FSLIBS, deps=DEPS) for k in range(6)],
+    runs=[run("c13_p%d" % k, shards=sh, min_cases={"quick": fl, "thorough": fl}, max_restarts=400) for k, _, sh, fl in PARTS]
+         + [run("c13_n%d" % k, shards=4, min_cases={"quick": 400, "thorough": 400}, max_restarts=400) for k in range(6)],
+    require_obs=["names.char-const-ptr", "names.std-string", "names.std-wstring", "names.filesystem-path", "names.FILEptr", "names.istream", "names.TIFFptr",
+                 "names.arg.tag", "names.arg.default-settings", "names.arg.subrect-settings", "names.arg.subrect+option-settings",
+                 "names.ok.read_image.subrect-settings", "names.ok.read_view.subrect-settings", "names.ok.read_and_convert_image.subrect-settings", "names.ok.read_and_convert_view.subrect-settings",
+                 "names.ok.read_image_info.subrect-settings", "names.ok.any_image.subrect-settings", "names.ok.make_reader.subrect-settings", "names.ok.make_scanline_reader.tag", "convert.subrect",
+                 "path.subrect", "path.convert", "path.scanline", "path.readview", "path.anyimage", "path.devices", "path.info",
                  "path.toosmall", "toosmall.rejected", "stream.frag1", "stream.frag2", "stream.frag7", "stream.frag64", "stream.frag4096", "stream.frag-seeded", "stream.ifstream", "stream.stringstream-written", "stream.file-over-8KB", "stream.file-over-16KB", "stream.file-over-64KB", "stream.entry-ok.read_image", "stream.entry-ok.read_view", "stream.entry-ok.read_and_convert_image-rgb8", "stream.entry-ok.read_and_convert_view-rgb8", "stream.entry-ok.read_image_info", "stream.entry-ok.any_image", "stream.entry-ok.scanline", "stream.entry-ok.scanline-skip", "scanline.skip-then-deref", "scanline.deref-skip-deref", "scanline.advance", "scanline.alternate", "device.FILEptr", "device.filename", "rect.xoff-shortw-yoff-shorth",
                  "rect.x0-fullw-y0-fullh", "variant.rle8", "variant.interlaced-rgb8", "variant.P1-ascii-mono", "variant.rle32-ul-origin"],
 )
